@@ -571,3 +571,45 @@ def large_programs_c17():
     prog("hutch_n101", 101, "hutch", tol=0.5, max_iters=2, key=3, k=0)
     prog("hutch_n1000", 1000, "hutch", tol=0.5, max_iters=1, key=3, k=-3)
     return out
+
+
+# ------------------------------------------------------------------------------------------
+# C17 routine x operator-kind matrix: every randomised routine called directly (no algorithm object) on every
+# operator kind, then again on a TWIN operator built from the same recipe (equal value, other object), with user
+# draws in between.  Exhaustive over the matrix.
+MATRIX_ROUTINES = [
+    ("hutch", {"tol": 0.2, "max_iters": 2, "k": 0}, True), ("hutch", {"tol": 0.2, "max_iters": 2, "k": 1, "rand": "rademacher"}, True),
+    ("slq", {"fun": "log", "max_iters": 3, "vtol": 0.6}, True), ("slq", {"fun": "exp", "max_iters": 2, "vtol": 1.0, "pbar": True}, True),
+    ("lanczos", {"max_iters": 3}, True), ("lanczos_eigs", {"max_iters": 3}, True),
+    ("arnoldi", {"max_iters": 3}, True), ("arnoldi_eigs", {"max_iters": 3}, True), ("arnoldi", {"max_iters": 100}, True), ("lanczos", {"max_iters": 100, "pbar": True}, True),
+    ("power_iteration", {"max_iter": 3}, True), ("nystrom", {"rank": 2}, True),
+    ("cg_nystrom", {"rank": 2, "max_iters": 3, "b": {"arr": {"shape": [4], "dtype": "f8", "seed": 9}}}, True),
+    ("lobpcg", {"max_iters": 2}, True),
+    ("adanys", {"rank": 2, "bounds": [0.1, 0.5, 2.0]}, False), ("select_rank", {"rank_init": 1, "rank_max": 2, "tol": 1.0}, False),
+    ("randomized_svd", {"rank": 2}, False),
+]
+
+
+def matrix_programs_c17():
+    out = []
+    for fn, kw, keyed in MATRIX_ROUTINES:
+        for kname, rec in sorted(path_kinds().items()):
+            for key in ((7, None) if keyed else ("-", )):
+                a = dict(kw)
+                if key != "-" and key is not None:
+                    a["key"] = key
+                if "b" in a and kname in ("float32", "complex"):
+                    a["b"] = {"arr": dict(a["b"]["arr"], dtype="f4" if kname == "float32" else "c16")}
+                c1 = {"op": "call", "fn": fn, "args": dict({"A": {"slot": "AK"}}, **a)}
+                c2 = {"op": "call", "fn": fn, "args": dict({"A": {"slot": "AKb"}}, **a)}
+                steps = [{"op": "make", "slot": "AK", "recipe": rec}, {"op": "make", "slot": "AKb", "recipe": rec},
+                         {"op": "user", "act": ["reseed", 13], "slot": "s0"}, c1,
+                         {"op": "user", "act": ["draw", "randn", 2], "slot": "s0"}, c2, dict(c1, repeat_of=3),
+                         {"op": "user", "act": ["draw", "rand", 2], "slot": "s0"}]
+                for j, s in enumerate(steps):
+                    s["id"] = j
+                out.append({"name": "%s%s/%s/key=%s" % (fn, "".join("_%s" % v for v in kw.values() if isinstance(v, (str, int))),
+                                                       kname, key),
+                            "program": {"property": "C17", "run_seed": 0, "rng0": 3, "config": {"matrix": [fn, kname, str(key)]},
+                                        "mode": "explicit", "steps": steps}})
+    return out
